@@ -203,6 +203,12 @@ def oracle(case, R):
         pm = np.ix_(perm, perm)
         mv, Bp, kv = S["m"][perm], Bm[pm], S["k"][perm]
         F_in = F[perm]
+        # force samples in the caller's own container: integer-valued histories as an integer array or nested
+        # lists (the solvers must compute in floating point whatever the dtype of the samples)
+        fpack = case.get("fpack", "float")
+        if fpack != "float" and np.all(F_in == np.round(F_in)) and np.abs(F_in).max() < 2 ** 40:
+            F_call = F_in.astype(np.int64) if fpack == "int" else F_in.astype(np.int64).tolist()
+            R.label("force:" + fpack)
         d0_in = None if d0 is None else d0[perm]
         v0_in = None if v0 is None else v0[perm]
         tr = lambda q: q                           # noqa: E731
@@ -221,6 +227,8 @@ def oracle(case, R):
         dref, vref, aref = dref[perm], vref[perm], aref[perm]
         if case.get("rb_given") and not rb:
             rb_in = []
+    if "F_call" not in locals():
+        F_call = F_in
     pre_eig = bool(case.get("pre_eig"))
     dphys, vphys, aphys = tr(dref), tr(vref), tr(aref)
     sc_d = max(np.abs(dphys).max(), 1e-300)
@@ -312,13 +320,13 @@ def oracle(case, R):
     sols = {}
     # SolveExp2: any step size
     ts2 = ode.SolveExp2(M_in, B_in, K_in, h, **kw)
-    sols["se2"] = ts2.tsolve(F_in, d0_in, v0_in, static_ic=static_ic)
+    sols["se2"] = ts2.tsolve(F_call, d0_in, v0_in, static_ic=static_ic)
     nrmA = max(1.0, h * np.linalg.norm(np.block([[-la.solve(Mo_, Bo_), -la.solve(Mo_, Ko_)],
                                                   [np.eye(n), np.zeros((n, n))]]), 1))
     compare(sols["se2"], "SolveExp2", nrmA * (kap_eig if coupled else 1.0) ** 0)
     # SolveUnc
     tsu = ode.SolveUnc(M_in, B_in, K_in, h, **kw)
-    sols["su"] = tsu.tsolve(F_in, d0_in, v0_in, static_ic=static_ic)
+    sols["su"] = tsu.tsolve(F_call, d0_in, v0_in, static_ic=static_ic)
     R.label("su_unc" if tsu.unc else "su_coupled")
     if tsu.unc and any(md["reg"] == "slow" for md in case["modes"]):
         R.label("out_of_domain:undeclared_zero_stiffness_mode_on_uncoupled_path")
@@ -335,6 +343,10 @@ def oracle(case, R):
         ts1 = ode.SolveExp1(A, h, order=order)
         Fm = F_in if M_in is None else (F_in / M_in[:, None] if np.ndim(M_in) == 1 else la.solve(M_in, F_in))
         f1 = np.vstack((Fm, np.zeros_like(Fm)))
+        if M_in is None and F_call is not F_in:
+            f1 = np.vstack((np.asarray(F_call), np.zeros_like(np.asarray(F_call))))   # integer dtype
+            if isinstance(F_call, list):
+                f1 = f1.tolist()
         y0 = np.r_[np.zeros(n) if v0_in is None else v0_in, np.zeros(n) if d0_in is None else d0_in]
         s1 = ts1.tsolve(f1, y0)
         from types import SimpleNamespace
@@ -459,7 +471,8 @@ def cases(draw, form):
             "bvec": draw(st.booleans()), "kvec": draw(st.booleans()), "pre_eig": pre_eig, "ic": ic,
             "fscale": fscale, "icscale": draw(st.sampled_from([1.0, 1e-2])),
             "f0zero": draw(st.booleans()), "cpl": draw(st.sampled_from([0.05, 0.3, 0.8])),
-            "physnonprop": form == "physical" and draw(st.booleans())}
+            "physnonprop": form == "physical" and draw(st.booleans()),
+            "fpack": draw(st.sampled_from(["float", "float", "int", "list"]))}
 
 
 def enum_rbd(shard, nshards, tier):
